@@ -21,8 +21,9 @@ code runs) on EVERY configuration of spans on a small grid; because the algorith
 many points as there are end points realises every order type.  ExtractResult.overlap / cover / end and Token's properties are
 interpreted from their own ASTs, so a change there is decided too.
 
-  C12.add-mod / C12.unit-candidates / C12.compound (documented at their definitions below): the steps that grow entities over
-                   modifier words, select currency candidates around numbers, and split a currency compound into amounts.
+  C12.add-mod / C12.unit-candidates / C12.compound-groups / C12.compound (documented at their definitions below): the steps
+                   that grow entities over modifier words, select currency candidates around numbers, join neighbouring
+                   currency candidates into compounds, and split a currency compound into amounts.
 
 What is not decided: which candidate spans the regex patterns produce for a given sentence, the sub-extractors' own merge
 steps before merge_all_tokens, and therefore model-level disjointness for a concrete input.  Configurations in which a resolver today lets two overlapping spans survive are genuine
@@ -43,7 +44,8 @@ META = {
             'on every configuration of candidate spans (all interval order types up to the stated sizes); the steps that grow or '
             'split entities afterwards - add_mod of both merged extractors (every token string up to the stated length, every list '
             'order), the currency candidate selection of NumberWithUnitExtractor.extract (every short text over digit / unit / '
-            'blank), the currency parser\'s compound splitting (every item sequence) - keep them disjoint',
+            'blank), the currency extractor\'s joining of neighbouring candidates into compounds (every short item / separator '
+            'sequence), the currency parser\'s compound splitting (every item sequence) - keep them disjoint',
     'note': 'Not decided: which candidates the patterns produce for a sentence; sub-extractor merges before merge_all_tokens; '
             'model-level disjointness on a concrete input. The token / item languages of the growth and split tabulations abstract '
             'the resource patterns to words (stated in each rule). Configurations where a step lets overlapping spans survive are '
@@ -1053,3 +1055,204 @@ _run_before_compound = run
 def run(chk):       # noqa: F811
     _run_before_compound(chk)
     rule_compound(chk, get_index(), chk.tier if hasattr(chk, 'tier') else 'quick')
+
+
+# ---------------------------------------------------------------------------------------------------------------
+# C12.compound-groups: the currency extractor joins neighbouring candidates ("7 dollars and 20 cents") into one compound.
+# BaseMergedUnitExtractor.__merged_compound_units - the groups[] array of its first loop, the result[group] indexing of its
+# second, with __merge_pure_number - is interpreted on every short sequence of items (integer amount / fractional amount / bare
+# number) x separators (blank / connector word / comma / connector word followed by something else).  NumberWithUnitExtractor,
+# the number extractor and the connector pattern are stubs of the checker that report the items of the text; nothing of the
+# repository runs.  Required: the returned entities are pairwise disjoint, each runs from the start of one item to the end of
+# an item, and carries the slice it addresses.  (result[] is indexed by group number, which is only sound while groups[] never
+# decreases: a branch that leaves groups[idx + 1] at its initial 0 after an earlier boundary stretches result[0] over everything
+# in between.)
+
+GROUP_ITEMS = {'C': ('3', ' dd', 'IntegerNum'), 'F': ('3.5', ' ee', 'DoubleNum'), 'N': ('7', '', 'IntegerNum')}
+GROUP_SEPS = {'_': ' ', '&': ' and ', ',': ', ', '%': ' and so '}
+GROUP_CONNECTOR = 'and'
+
+GROUPS_CONTROL = '''
+def merged(self, source):
+    ers = NumberWithUnitExtractor(self.config).extract(source)
+    out = list(ers)
+    if len(ers) > 1:
+        whole = ExtractResult()
+        whole.start = ers[0].start
+        whole.length = ers[-1].start + ers[-1].length - ers[0].start
+        whole.text = source[whole.start:whole.start + whole.length]
+        whole.type = ers[0].type
+        out.append(whole)
+    return out
+'''
+
+
+class _ClosedTable(dict):
+    """attribute table of a stub: reading an attribute the stub does not model is not a verdict about the repository (exit 2)"""
+    def __init__(self, label, table):
+        dict.__init__(self, table)
+        self.label = label
+
+    def __contains__(self, name):
+        if not dict.__contains__(self, name):
+            raise AnalysisError('C12.compound-groups: the interpreted function reads %r of the %s, which the tabulation has no '
+                                'model for' % (name, self.label))
+        return True
+
+
+def _closed(table, label):
+    return Native(_ClosedTable(label, table), label)
+
+
+def groups_layout(kinds, seps):
+    """text and items [(start, end_exclusive, number_end_exclusive, kind)]"""
+    text, items = '', []
+    for i, k in enumerate(kinds):
+        num, unit, _ = GROUP_ITEMS[k]
+        s = len(text)
+        text += num + unit
+        items.append((s, len(text), s + len(num), k))
+        if i < len(seps):
+            text += GROUP_SEPS[seps[i]]
+    return text, items
+
+
+def groups_run(idx, cls, fn, owner, kinds, seps, er_cls, cur_type, num_type):
+    text, items = groups_layout(kinds, seps)
+
+    def mk(s, e, typ, data):
+        o = Obj(er_cls, {})
+        o.attrs.update({'start': s, 'length': e - s, 'text': text[s:e], 'type': typ, 'data': data, 'meta_data': None})
+        return o
+
+    def numbers(it, a, k):
+        if a[-1] != text:
+            it.fail(None, 'the number extractor is asked about something that is not the source text')
+        return [mk(s, ne, num_type, GROUP_ITEMS[kd][2]) for s, e, ne, kd in items]
+
+    def units(it, a, k):
+        if a[-1] != text:
+            it.fail(None, 'the unit extractor is asked about something that is not the source text')
+        return [mk(s, e, cur_type, mk(0, ne - s, num_type, GROUP_ITEMS[kd][2])) for s, e, ne, kd in items if kd != 'N']
+
+    def connector_match(it, a, k):
+        s = a[0]
+        if not isinstance(s, str):
+            raise PyExc('TypeError: expected string')
+        if not s.startswith(GROUP_CONNECTOR):
+            return None
+        tbl = dict(_stub_match(s, 0, len(GROUP_CONNECTOR)).table)
+        tbl.update({'string': s, 'pos': 0, 'endpos': len(s)})
+        return _closed(tbl, 'match object of the connector pattern')
+    cfg = _closed({'extract_type': cur_type, 'unit_num_extractor': _closed({'extract': native(numbers)}, 'number extractor'),
+                   'compound_unit_connector_regex': _closed({'match': native(connector_match)}, 'connector pattern')},
+                  'extractor configuration')
+    hooks = dict(_regex_hooks())
+    hooks['NumberWithUnitExtractor'] = lambda it, a, k: _closed({'extract': native(units)}, 'unit extractor')
+    it = Interp(idx, hooks=hooks, where='%s.%s' % (cls.name, fn.name), budget=400000)
+    selfo = Obj(cls, {'config': cfg})
+    if owner is None:
+        out = it.call_function(FuncRef(cls.mod, fn, None), [selfo, text], {})
+    else:
+        out = it.call_function(FuncRef(cls.mod, fn, owner), [text], {}, None, selfobj=selfo)
+    if not isinstance(out, list):
+        raise AnalysisError('%s.%s does not return a list of results' % (cls.name, fn.name))
+    res = []
+    for o in out:
+        s, l, t = (o.attrs.get('start'), o.attrs.get('length'), o.attrs.get('text')) if isinstance(o, Obj) else (None, None, None)
+        if not isinstance(s, int) or not isinstance(l, int) or not isinstance(t, str):
+            raise AnalysisError('%s.%s returns a result without integer start/length and str text' % (cls.name, fn.name))
+        res.append((s, s + l - 1, t))
+    return text, items, res
+
+
+def groups_verdicts(text, items, res):
+    vs = []
+    starts = {s: i for i, (s, e, ne, k) in enumerate(items)}
+    ends = {e - 1: i for i, (s, e, ne, k) in enumerate(items)}
+    for (s, e, t) in res:
+        if s not in starts or e not in ends or ends[e] < starts[s]:
+            vs.append(('boundaries', 'entity [%d,%d] does not run from the start of an item to the end of an item' % (s, e)))
+        elif t != text[s:e + 1]:
+            vs.append(('text', 'entity [%d,%d] has text %r, its span addresses %r' % (s, e, t, text[s:e + 1])))
+    for i in range(len(res)):
+        for j in range(i + 1, len(res)):
+            if overlap(res[i][:2], res[j][:2]):
+                vs.append(('overlap', 'entities %r [%d,%d] and %r [%d,%d] overlap'
+                           % (res[i][2], res[i][0], res[i][1], res[j][2], res[j][0], res[j][1])))
+    return vs
+
+
+def rule_compound_groups(chk, idx, tier):
+    rid = 'C12.compound-groups'
+    chk.rule(rid, 'the entities BaseMergedUnitExtractor joins neighbouring currency candidates into are pairwise disjoint runs of '
+                  'whole items and carry the slice they address', floor=4, control=True)
+    cls = idx.cls('recognizers_number_with_unit.number_with_unit.extractors.BaseMergedUnitExtractor')
+    er_cls = idx.cls('recognizers_text.extractor.ExtractResult')
+    consts = idx.cls('recognizers_number_with_unit.number_with_unit.constants.Constants')
+    if cls is None or er_cls is None or consts is None:
+        raise AnalysisError('anchor vanished: BaseMergedUnitExtractor / ExtractResult / Constants')
+    k, fn = idx.find_method(cls, 'extract')
+    if fn is None:
+        raise AnalysisError('anchor vanished: BaseMergedUnitExtractor.extract')
+    cur, num = consts.attrs.get('SYS_UNIT_CURRENCY'), consts.attrs.get('SYS_NUM')
+    if not all(isinstance(x, ast.Constant) and isinstance(x.value, str) for x in (cur, num)):
+        raise AnalysisError('anchor vanished: Constants.SYS_UNIT_CURRENCY / SYS_NUM')
+    chk.consulted(cls.mod.path)
+    plans = [(4, '_&,')] if tier == 'quick' else [(5, '_&,'), (4, '_&,%')]
+    first, runs, joined = {}, 0, 0
+    cases = []
+    for maxlen, seps in plans:
+        for n in range(1, maxlen + 1):
+            # a bare number in front of every amount never reaches the grouping (and is not an entity): sequences start with an amount
+            cases += [(kinds, sp) for kinds in itertools.product('CFN', repeat=n) if kinds[0] != 'N'
+                      for sp in itertools.product(seps, repeat=n - 1)]
+    for kinds, sp in sorted(set(cases), key=lambda c: (len(c[0]), c)):
+        runs += 1
+        try:
+            text, items, res = groups_run(idx, cls, fn, k, kinds, sp, er_cls, cur.value, num.value)
+            vs = groups_verdicts(text, items, res)
+            joined += any(e - s + 1 > max(i[1] - i[0] for i in items) for s, e, _ in res)
+        except PyExc as ex:
+            vs = [('raises', str(ex))]
+            text = groups_layout(kinds, sp)[0]
+        for kind, what in vs:
+            if kind not in first or len(text) < len(first[kind][0]):
+                first[kind] = (text, what)
+    if not joined:
+        raise AnalysisError('BaseMergedUnitExtractor.extract (currency) joins no two items on any of the %d item sequences: the '
+                            'tabulation does not reach the grouping step' % runs)
+    for kind in ('raises', 'boundaries', 'text', 'overlap'):
+        bad = first.get(kind)
+        chk.judge(bad is None, rid, cls.mod.path, 'BaseMergedUnitExtractor.extract [%s]' % kind,
+                  'never' if bad is None else 'happens', None if bad is None else
+                  'BaseMergedUnitExtractor.extract (currency): on the text %r (dd / ee = units, '
+                  '%r = the compound connector): %s' % (bad[0], GROUP_CONNECTOR, bad[1]), fn.lineno if bad is None else
+                  _groups_line(cls, fn))
+    chk.observe('C12.compound-groups: BaseMergedUnitExtractor.extract (currency) interpreted on %d item sequences (%s); %d of them '
+                'join items' % (runs, '; '.join('up to %d items with separators %s' % (m, sorted(GROUP_SEPS[c] for c in sp))
+                                                for m, sp in plans), joined))
+    ctl = ast.parse(GROUPS_CONTROL).body[0]
+    try:
+        text, items, res = groups_run(idx, cls, ctl, None, 'CC', ',', er_cls, cur.value, num.value)
+        v = groups_verdicts(text, items, res)
+    except PyExc:
+        v = []
+    chk.control(rid, any(kd == 'overlap' for kd, _ in v))
+
+
+def _groups_line(cls, fn):
+    """display only: the method that owns the groups[] array if there is one, else extract"""
+    for name, m in cls.methods.items():
+        for n in ast.walk(m):
+            if isinstance(n, ast.Subscript) and isinstance(n.value, ast.Name) and n.value.id == 'groups' and isinstance(n.ctx, ast.Store):
+                return n.lineno
+    return fn.lineno
+
+
+_run_before_groups = run
+
+
+def run(chk):       # noqa: F811
+    _run_before_groups(chk)
+    rule_compound_groups(chk, get_index(), chk.tier if hasattr(chk, 'tier') else 'quick')
